@@ -15,3 +15,17 @@ package path
 //@   trusted functional postcondition not yet proved against the body (see C19)
 //@   ensures view(res0) == idxpath(p, prefix) && res0 != nil && fresh(res0)
 //@   ensures [target-leads] prefix && p != nil && p.Target != "" ==> len(res0) >= 1 && res0[0] == p.Target
+
+//@ pred OriginOf(p *gpb.Path) := ite(p == nil, "", p.Origin)
+
+// CompletePath: conflicting origins are rejected; otherwise the result is the
+// origin (if any) followed by the prefix index and the path index.
+//@ func CompletePath
+//@   props C19 C05 C12
+//@   ensures [both-origins-rejected] OriginOf(prefix) != "" && OriginOf(path) != "" ==> res1 != nil && res0 == nil
+//@   ensures [path-origin-needs-bare-prefix] OriginOf(prefix) == "" && OriginOf(path) != "" && len(idxpath(prefix, false)) > 0 ==> res1 != nil && res0 == nil
+//@   ensures [prefix-origin-leads] OriginOf(prefix) != "" && OriginOf(path) == "" ==> res1 == nil
+//@     && view(res0) == unit(OriginOf(prefix)) ++ idxpath(prefix, false) ++ idxpath(path, false)
+//@   ensures [path-origin-leads] OriginOf(prefix) == "" && OriginOf(path) != "" && len(idxpath(prefix, false)) == 0 ==> res1 == nil
+//@     && view(res0) == unit(OriginOf(path)) ++ idxpath(path, false)
+//@   ensures [no-origin] OriginOf(prefix) == "" && OriginOf(path) == "" ==> res1 == nil && view(res0) == idxpath(prefix, false) ++ idxpath(path, false)
